@@ -1,3 +1,4 @@
+import MiniconfVerif.Lemmas.GenTie
 import MiniconfVerif.Lemmas.WalkStruct
 import MiniconfVerif.Lemmas.Factor
 
@@ -124,5 +125,20 @@ example : (exT.walk ⟨fun _ _ => true, fun _ => none⟩ .ser (.list [.str "b".t
 example : (exT.erase.traverse cb0 (.list [.str "b".toList, .int 5]) ()).1 = .trav (.notFound 2) := by decide +kernel
 example : (KeySrc.list [Key.str "x".toList]).finalize = .error (.tooLong 0) := rfl
 example : gateErr .option .ser true = some (.absent 0) := rfl
+
+
+/-! ### Tie to the translated source (`Gen/Core.lean`, regenerated from error.rs, key.rs, node.rs) -/
+open MiniconfVerif.Gen MiniconfVerif.Gen.Core MiniconfVerif.GenTie in
+/-- the depth bookkeeping (`Traversal::increment`, `Error::increment_result`), the index → name lookup
+(`KeyLookup::lookup`, `len`) and the result → node conversion (`TryFrom<Result<usize, Error<()>>> for Node`)
+**as translated from the source** are the model's `Trav.incr`, `Res.incr`, `Lookup.name?`/`len`, `Res.toNode` -/
+theorem source_bookkeeping_is_model :
+    (∀ t : Traversal, travOfGen t.increment = (travOfGen t).incr ∧ t.depth = (travOfGen t).depth) ∧
+    (∀ r : Except (Error Unit) Nat, resOfGen (Error.increment_result r) = (resOfGen r).incr) ∧
+    (∀ r : Except (Error Unit) Nat, nodeResOfGen (Node.try_from r) = (resOfGen r).toNode) ∧
+    (∀ (lk : Lookup) (i : Nat), (lookupToGen lk).lookup i =
+        if i < lk.len then .ok (lk.name? i) else .error (.NotFound 1)) ∧
+    (∀ lk : Lookup, 0 < lk.len → (lookupToGen lk).len = .val lk.len) :=
+  ⟨fun t => ⟨increment_tie t, depth_tie t⟩, increment_result_tie, try_from_tie, lookup_tie, len_tie⟩
 
 end MiniconfVerif.C02
